@@ -305,6 +305,23 @@ func loadOfField(p *Prog, v ssa.Value, fk string) bool {
 
 // clampedBy: v is clampInt(_, load min, load max) or max(load min, min(load max, _)) / min(load max, max(load min, _)).
 func clampedBy(p *Prog, v ssa.Value, minF, maxF string) bool {
+	return clampedByD(p, v, minF, maxF, ipDepth)
+}
+
+func clampedByD(p *Prog, v ssa.Value, minF, maxF string, depth int) bool {
+	if par, ok := p.origin(v).(*ssa.Parameter); ok && depth > 0 {
+		// the store sits in a helper: the value is clamped at every call of it
+		args, _, closed := p.argsForParam(par)
+		if !closed || len(args) == 0 {
+			return false
+		}
+		for _, a := range args {
+			if !clampedByD(p, a, minF, maxF, depth-1) {
+				return false
+			}
+		}
+		return true
+	}
 	c, ok := p.origin(v).(*ssa.Call)
 	if !ok {
 		return false
